@@ -583,3 +583,15 @@ seed('c10-kcenters-last-column-missing', 'C10', [(GKC, "            for (unsigne
 seed('c10-kcenters-column-shifted', 'C10', [(GKC, "                    if ((dists(j, i - 1) = distFun_(data[j], center)) < minDist[j])\n                        minDist[j] = dists(j, i - 1);", "                    if ((dists(j, i) = distFun_(data[j], center)) < minDist[j])\n                        minDist[j] = dists(j, i);")], 'R10k')
 seed('c10-kcenters-duplicate-centres', 'C10', [(GKC, "                if (maxDist < std::numeric_limits<double>::epsilon())\n                    break;", "                if (maxDist < -1.0)\n                    break;")], 'R10k')
 seed('c10-n-kcenters-mindist-two-steps', 'C10', [(GKC, "                    if ((dists(j, i - 1) = distFun_(data[j], center)) < minDist[j])\n                        minDist[j] = dists(j, i - 1);", "                    dists(j, i - 1) = distFun_(data[j], center);\n                    if (dists(j, i - 1) < minDist[j])\n                        minDist[j] = dists(j, i - 1);")], None)
+# R04o: objective algebra
+SCIO = 'src/ompl/base/objectives/src/StateCostIntegralObjective.cpp'
+MMO = 'src/ompl/base/objectives/src/MinimaxObjective.cpp'
+PLO = 'src/ompl/base/objectives/src/PathLengthOptimizationObjective.cpp'
+SCIH = 'src/ompl/base/objectives/StateCostIntegralObjective.h'
+seed('c04-sci-last-segment-from-s1', 'C04', [(SCIO, "                         this->trapezoid(prevStateCost, this->stateCost(s2), si_->distance(test1, s2)).value());", "                         this->trapezoid(prevStateCost, this->stateCost(s2), si_->distance(s1, s2)).value());")], 'R04o')
+seed('c04-sci-prevcost-not-advanced', 'C04', [(SCIO, "                std::swap(test1, test2);\n                prevStateCost = nextStateCost;", "                std::swap(test1, test2);")], 'R04o')
+seed('c04-sci-trapezoid-no-half', 'C04', [(SCIH, "                return Cost(0.5 * dist * (c1.value() + c2.value()));", "                return Cost(dist * (c1.value() + c2.value()));")], 'R04o')
+seed('c04-minimax-skips-end-state', 'C04', [(MMO, "    if (this->isCostBetterThan(worstCost, lastCost))\n        worstCost = lastCost;", "    if (this->isCostBetterThan(lastCost, worstCost))\n        worstCost = lastCost;")], 'R04o')
+seed('c04-minimax-combine-better', 'C04', [(MMO, "    return this->isCostBetterThan(c1, c2) ? c2 : c1;", "    return this->isCostBetterThan(c1, c2) ? c1 : c2;")], 'R04o')
+seed('c04-pathlength-heuristic-doubled', 'C04', [(PLO, "    return motionCost(s1, s2);\n}\n\nompl::base::Cost ompl::base::PathLengthOptimizationObjective::motionCostBestEstimate", "    return Cost(2.0 * motionCost(s1, s2).value());\n}\n\nompl::base::Cost ompl::base::PathLengthOptimizationObjective::motionCostBestEstimate")], 'R04o')
+seed('c04-n-sci-total-via-local', 'C04', [(SCIO, "                std::swap(test1, test2);\n                prevStateCost = nextStateCost;", "                prevStateCost = nextStateCost;\n                std::swap(test1, test2);")], None)
